@@ -92,7 +92,7 @@ CHECKS = {
    level="exploration",
    text="Builder-as-child-process monitor over programs x configurations: hostile-named G_thrift documents (+ fixed directed documents) built in 16 configurations; observations = exit status/stderr of pilota-build and rustc diagnostics (cargo check of a crate that include!s every output as a module against the working tree's pilota).",
    design="6/C14",
-   note="Thrift documents (hostile names, six namespace layouts incl. multi-segment paths that differ in the middle) and G_proto documents (plain names). Uniqueness of names only in Thrift's own terms. Directed documents present in every run: shapes a random document has only by chance (double set/map keys with int literals, struct literals naming boxed fields, triple name collisions, constants/literals on typedef'd fields, package-less .proto in split mode) plus the recorded findings (prelude names, recursive unions, oneof recursion).",
+   note="Thrift documents (hostile names, six namespace layouts incl. multi-segment paths that differ in the middle) and G_proto documents (plain names and, for every other pair, hostile names kept valid in protobuf's own terms: unique per scope, field names unique as JSON names). Uniqueness of names only in Thrift's own terms. Directed documents present in every run: shapes a random document has only by chance (double set/map keys with int literals, struct literals naming boxed fields, triple name collisions, constants/literals on typedef'd fields, package-less .proto in split mode) plus the recorded findings (prelude names, recursive unions, oneof recursion).",
    technique="runtime monitoring: child-process status + compiler diagnostics over generated programs"),
  "C17": dict(
    level="exploration",
